@@ -1,4 +1,252 @@
+(* C11 - A forwarding Proxy equals its target; invariant-breaking handlers are rejected.
+   Statements only; proofs in C11/Proofs.v and C11/Proofs2.v. *)
 From Coq Require Import List NArith Bool.
-From Verif.C11 Require Import Model.
-Theorem placeholder : True. Proof. exact I. Qed.
-Print Assumptions placeholder.
+Import ListNotations.
+From Verif.C11 Require Import Model Proofs Proofs2.
+
+(* (1) goja's post-trap checks = ECMA-262 10.5 post-conditions, all 13 traps, every trap result, every well-formed target of any size - outside the region of finding F6 *)
+Theorem checks_eq_spec :
+  forall c t, wf t = true -> call_in_f6 c t = false ->
+  goja_check c t = spec_check c t.
+Proof. exact Proofs2.checks_eq_spec. Qed.
+
+(* ... unconditionally for the 11 traps other than getOwnPropertyDescriptor/defineProperty *)
+Theorem checks_eq_spec_other_traps :
+  forall c t, wf t = true ->
+  match c with CGopd _ _ | CDefine _ _ _ => False | _ => True end ->
+  goja_check c t = spec_check c t.
+Proof. exact Proofs2.checks_eq_spec_other_traps. Qed.
+
+(* ownKeys: goja's one-pass keySet algorithm = the spec's two-pass algorithm, for key lists and property tables of any length *)
+Theorem ownkeys_eq :
+  forall r t, wf t = true -> goja_ownkeys r t = spec_ownkeys r t.
+Proof. exact Proofs.ownkeys_eq. Qed.
+
+(* getOwnPropertyDescriptor outside the F6 region (explicit guard) *)
+Theorem gopd_eq_partial :
+  forall r cur ext,
+  match r with GDesc d => f6_region (complete d) cur || undef_accessor d = false | GUndef | GNonObj => True end ->
+  goja_gopd r cur ext = spec_gopd r cur ext.
+Proof. exact Proofs.gopd_eq_partial. Qed.
+
+(* defineProperty outside the F6 region (explicit guard) *)
+Theorem define_eq_partial :
+  forall d (r : bool) cur ext,
+  desc_invalid d = false -> (if r then f6_region d cur else false) = false ->
+  goja_define d r cur ext = spec_define d r cur ext.
+Proof. exact Proofs.define_eq_partial. Qed.
+
+(* F6: the full-strength statement is false on the current tree: honest result rejected, lying result accepted *)
+Theorem gopd_check_refuted :
+  wf acc_target = true /\
+  (goja_check (CGopd 1%N (GDesc (of_prop (PAcc (Some 1%N) None false false)))) acc_target = RTypeError /\
+   spec_check (CGopd 1%N (GDesc (of_prop (PAcc (Some 1%N) None false false)))) acc_target
+     = RDesc (Some (PAcc (Some 1%N) None false false))) /\
+  (goja_check (CGopd 1%N (GDesc (of_prop (PAcc (Some 2%N) None false false)))) acc_target
+     = RDesc (Some (PAcc (Some 2%N) None false false)) /\
+   spec_check (CGopd 1%N (GDesc (of_prop (PAcc (Some 2%N) None false false)))) acc_target = RTypeError).
+Proof. exact Proofs2.gopd_check_refuted. Qed.
+
+(* F6 (kind change accepted by defineProperty) *)
+Theorem define_check_refuted :
+  wf data_target = true /\
+  goja_check (CDefine 1%N (mkD None None None None (Some (Some 1%N)) None) true) data_target = RBool true /\
+  spec_check (CDefine 1%N (mkD None None None None (Some (Some 1%N)) None) true) data_target = RTypeError.
+Proof. exact Proofs2.define_check_refuted. Qed.
+
+(* {get: undefined, set: undefined} reported as a data property *)
+Theorem gopd_result_refuted :
+  wf undef_acc_target = true /\
+  goja_check (CGopd 1%N (GDesc (of_prop (PAcc None None true true)))) undef_acc_target
+    = RDesc (Some (PData vundef false true true)) /\
+  spec_check (CGopd 1%N (GDesc (of_prop (PAcc None None true true)))) undef_acc_target
+    = RDesc (Some (PAcc None None true true)).
+Proof. exact Proofs2.gopd_result_refuted. Qed.
+
+(* target operations keep the property table duplicate-free *)
+Theorem ord_step_wf :
+  forall w o t, wf t = true -> wf (snd (ord_step w o t)) = true.
+Proof. exact Proofs2.ord_step_wf. Qed.
+
+(* (2) a trap that reports what Reflect.<op> on the target answered is never rejected and its answer becomes the result - every operation, every target *)
+Theorem honest_accepted :
+  forall w o t, wf t = true ->
+  let '(r, t') := ord_step w o t in
+  r <> RTypeError ->
+  exists c, honest_call o r = Some c /\ spec_check c t' = r.
+Proof. exact Proofs2.honest_accepted. Qed.
+
+(* (3) n layers of forwarding proxies = the target itself (result and target state), by induction on n *)
+Theorem forwarding_transparent :
+  forall w n o t, wf t = true ->
+  layered spec_check w n o t = ord_step w o t.
+Proof. exact Proofs2.forwarding_transparent. Qed.
+
+(* the same through goja's checks, away from accessor properties under getOwnPropertyDescriptor/defineProperty *)
+Theorem goja_forwarding_transparent :
+  forall w n o t, wf t = true -> f6_free o t = true ->
+  layered goja_check w n o t = ord_step w o t.
+Proof. exact Proofs2.goja_forwarding_transparent. Qed.
+
+(* ... and inside that region goja's forwarding proxy throws where the target answers (F6) *)
+Theorem goja_forwarding_refuted :
+  layered goja_check w0 1 (OGopd 1%N) acc_target = (RTypeError, acc_target) /\
+  ord_step w0 (OGopd 1%N) acc_target = (RDesc (Some (PAcc (Some 1%N) None false false)), acc_target).
+Proof. exact Proofs2.goja_forwarding_refuted. Qed.
+
+(* (4) exactly the lying results are rejected *)
+Theorem lying_has :
+  forall k r t, spec_check (CHas k r) t = RTypeError <->
+  r = false /\ exists c, find_prop k (t_props t) = Some c /\ (p_conf c = false \/ t_ext t = false).
+Proof. exact Proofs2.lying_has. Qed.
+
+Theorem lying_delete :
+  forall k r t, spec_check (CDelete k r) t = RTypeError <->
+  r = true /\ exists c, find_prop k (t_props t) = Some c /\ (p_conf c = false \/ t_ext t = false).
+Proof. exact Proofs2.lying_delete. Qed.
+
+Theorem lying_get :
+  forall k r t, spec_check (CGet k r) t = RTypeError <->
+  (exists v e, find_prop k (t_props t) = Some (PData v false e false) /\ r <> v) \/
+  (exists s e, find_prop k (t_props t) = Some (PAcc None s e false) /\ r <> vundef).
+Proof. exact Proofs2.lying_get. Qed.
+
+Theorem lying_set :
+  forall k v r t, spec_check (CSet k v r) t = RTypeError <->
+  r = true /\
+  ((exists v' e, find_prop k (t_props t) = Some (PData v' false e false) /\ v <> v') \/
+   (exists g e, find_prop k (t_props t) = Some (PAcc g None e false))).
+Proof. exact Proofs2.lying_set. Qed.
+
+Theorem lying_extensibility :
+  forall t,
+  (forall r, spec_check (CIsExt r) t = RTypeError <-> r <> t_ext t) /\
+  (forall r, spec_check (CPrevExt r) t = RTypeError <-> r = true /\ t_ext t = true).
+Proof. exact Proofs2.lying_extensibility. Qed.
+
+Theorem lying_prototype :
+  forall t,
+  (forall r, spec_check (CGetProto r) t = RTypeError <->
+     r = PRNonObj \/ (t_ext t = false /\
+       match r with PRObj o => t_proto t <> Some o | PRNull => t_proto t <> None | PRNonObj => True end)) /\
+  (forall v r, spec_check (CSetProto v r) t = RTypeError <-> r = true /\ t_ext t = false /\ v <> t_proto t).
+Proof. exact Proofs2.lying_prototype. Qed.
+
+Theorem lying_ownkeys :
+  forall l t, wf t = true ->
+  (spec_check (COwnKeys (KList l)) t <> RTypeError <->
+   exists u, entries_keys l = Some u /\ NoDup u /\
+     (forall k p, In (k, p) (t_props t) -> p_conf p = false -> In k u) /\
+     (t_ext t = false -> (forall k, In k (keys_of t) -> In k u) /\ (forall k, In k u -> In k (keys_of t)))).
+Proof. exact Proofs2.lying_ownkeys. Qed.
+
+Theorem lying_gopd :
+  forall k t,
+  (* "does not exist" for a non-configurable property or on a non-extensible target *)
+  (forall c, find_prop k (t_props t) = Some c -> p_conf c = false \/ t_ext t = false ->
+     spec_check (CGopd k GUndef) t = RTypeError) /\
+  (* a non-object *)
+  spec_check (CGopd k GNonObj) t = RTypeError /\
+  (* a property that does not exist, on a non-extensible target *)
+  (forall d, find_prop k (t_props t) = None -> t_ext t = false -> spec_check (CGopd k (GDesc d)) t = RTypeError) /\
+  (* reporting non-configurable what is absent or configurable *)
+  (forall d, flag_false (d_conf (complete d)) = true ->
+     match find_prop k (t_props t) with None => True | Some c => p_conf c = true end ->
+     spec_check (CGopd k (GDesc d)) t = RTypeError) /\
+  (* reporting configurable what is non-configurable *)
+  (forall d c, find_prop k (t_props t) = Some c -> p_conf c = false -> d_conf d = Some true ->
+     spec_check (CGopd k (GDesc d)) t = RTypeError) /\
+  (* a different value for a non-configurable non-writable data property *)
+  (forall d v v' e, find_prop k (t_props t) = Some (PData v false e false) -> d_value d = Some v' -> v' <> v ->
+     spec_check (CGopd k (GDesc d)) t = RTypeError) /\
+  (* a different getter or setter for a non-configurable accessor *)
+  (forall d g s e g', find_prop k (t_props t) = Some (PAcc g s e false) -> d_get d = Some g' -> g' <> g ->
+     spec_check (CGopd k (GDesc d)) t = RTypeError) /\
+  (forall d g s e s', find_prop k (t_props t) = Some (PAcc g s e false) -> d_set d = Some s' -> s' <> s ->
+     spec_check (CGopd k (GDesc d)) t = RTypeError).
+Proof. exact Proofs2.lying_gopd. Qed.
+
+Theorem lying_define :
+  forall k d t, desc_invalid d = false ->
+  (* claiming success for a new property on a non-extensible target *)
+  (find_prop k (t_props t) = None -> t_ext t = false -> spec_check (CDefine k d true) t = RTypeError) /\
+  (* claiming to have made non-configurable what is absent or still configurable *)
+  (d_conf d = Some false ->
+     match find_prop k (t_props t) with None => True | Some c => p_conf c = true end ->
+     spec_check (CDefine k d true) t = RTypeError) /\
+  (* claiming success for a descriptor the target's property is incompatible with *)
+  (forall c, find_prop k (t_props t) = Some c -> spec_compat (t_ext t) d (Some c) = false ->
+     spec_check (CDefine k d true) t = RTypeError) /\
+  (* claiming to have made non-writable a non-configurable property that is still writable *)
+  (forall v e, find_prop k (t_props t) = Some (PData v true e false) -> d_writable d = Some false ->
+     spec_check (CDefine k d true) t = RTypeError).
+Proof. exact Proofs2.lying_define. Qed.
+
+Theorem lying_construct :
+  forall r t, spec_check (CConstruct r) t = RTypeError <-> r = None.
+Proof. exact Proofs2.lying_construct. Qed.
+
+(* goja's checks reject exactly the same lies *)
+Theorem goja_rejects_lies :
+  forall c t, wf t = true ->
+  match c with CGopd _ _ | CDefine _ _ _ => False | _ => True end ->
+  (goja_check c t = RTypeError <-> spec_check c t = RTypeError).
+Proof. exact Proofs2.goja_rejects_lies. Qed.
+
+(* (5) a revoked proxy throws TypeError on every operation *)
+Theorem revoked_throws :
+  forall c t, goja_proxy_op true c t = RTypeError /\ spec_proxy_op true c t = RTypeError.
+Proof. exact Proofs2.revoked_throws. Qed.
+
+(* non-vacuity *)
+Example ex_checks_guard :
+  wf ex_target = true /\ call_in_f6 (CHas 1%N false) ex_target = false /\
+  goja_check (CHas 1%N false) ex_target = RTypeError /\ spec_check (CHas 1%N true) ex_target = RBool true.
+Proof. exact Proofs2.ex_checks_guard. Qed.
+
+Example ex_ownkeys :
+  goja_check (COwnKeys (KList [EKey 1%N; EKey 2%N; EKey 4%N])) ex_target = RKeys [1%N; 2%N; 4%N] /\
+  goja_check (COwnKeys (KList [EKey 1%N; EKey 2%N])) ex_target = RTypeError /\
+  goja_check (COwnKeys (KList [EKey 1%N; EKey 2%N; EKey 4%N; EKey 4%N])) ex_target = RTypeError /\
+  goja_check (COwnKeys (KList [EKey 1%N; EKey 2%N; EKey 4%N; EKey 5%N])) ex_target = RTypeError.
+Proof. exact Proofs2.ex_ownkeys. Qed.
+
+Example ex_honest :
+  ord_step w0 (ODefine 4%N (mkD (Some 5%N) None None (Some false) None None)) ex_target
+  = (RBool true, mkT false (Some 1%N) [(1%N, PData 1%N false true false); (2%N, PAcc None (Some 2%N) false false); (4%N, PData 5%N true true false)])
+  /\ layered goja_check w0 3 (ODefine 4%N (mkD (Some 5%N) None None (Some false) None None)) ex_target
+     = ord_step w0 (ODefine 4%N (mkD (Some 5%N) None None (Some false) None None)) ex_target
+  /\ f6_free (ODefine 4%N (mkD (Some 5%N) None None (Some false) None None)) ex_target = true.
+Proof. exact Proofs2.ex_honest. Qed.
+
+Example ex_lying_get :
+  spec_check (CGet 1%N 2%N) ex_target = RTypeError /\ spec_check (CGet 2%N 1%N) ex_target = RTypeError /\
+  spec_check (CGet 1%N 1%N) ex_target = RVal 1%N /\ spec_check (CSet 2%N 1%N true) ex_target = RBool true /\
+  spec_check (CSet 1%N 2%N true) ex_target = RTypeError.
+Proof. exact Proofs2.ex_lying_get. Qed.
+
+Print Assumptions checks_eq_spec.
+Print Assumptions checks_eq_spec_other_traps.
+Print Assumptions ownkeys_eq.
+Print Assumptions gopd_eq_partial.
+Print Assumptions define_eq_partial.
+Print Assumptions gopd_check_refuted.
+Print Assumptions define_check_refuted.
+Print Assumptions gopd_result_refuted.
+Print Assumptions ord_step_wf.
+Print Assumptions honest_accepted.
+Print Assumptions forwarding_transparent.
+Print Assumptions goja_forwarding_transparent.
+Print Assumptions goja_forwarding_refuted.
+Print Assumptions lying_has.
+Print Assumptions lying_delete.
+Print Assumptions lying_get.
+Print Assumptions lying_set.
+Print Assumptions lying_extensibility.
+Print Assumptions lying_prototype.
+Print Assumptions lying_ownkeys.
+Print Assumptions lying_gopd.
+Print Assumptions lying_define.
+Print Assumptions lying_construct.
+Print Assumptions goja_rejects_lies.
+Print Assumptions revoked_throws.
